@@ -59,7 +59,12 @@ class ProberEngine(engines.HistEngine):
     props = {
         "C18": dict(
             monitor="c18",
-            rel={"backoff", "latency", "uri", "interval", "probe-type", "payload", "consts", "flags", "derive"},
+            # Pure functions: the monitor is evaluated on the implementation's own outputs, so a change
+            # that keeps the property (growth factor 2.5, another error text, a stricter alphabet) only
+            # shows up as a divergence from the model in the classes backoff/latency/uri/interval/
+            # probe-type/payload/consts/flags. Those are reported (divergences_by_class) but are not
+            # a verdict; only an inconsistent main->prober hand-over is.
+            rel={"derive"},
             quick=dict(VERIF_N="5000", VERIF_NF="2500", VERIF_MAXPAYLOAD="120"),
             thorough=dict(VERIF_N="400000", VERIF_NF="100000", VERIF_MAXPAYLOAD="2000"),
             nontrivial=nontrivial_c18,
@@ -76,9 +81,6 @@ class ProberEngine(engines.HistEngine):
                  "at least one loop trip (backoff) / a duration came back (latency) / accepted and carried through (flags) / a value "
                  "came back (others)"),
     }
-
-    def build_driver(self, force=False):
-        return super().build_driver(force)
 
     def run_impl(self, scratch, env, tag="t", timeout=3000):
         """main-package harness -> derived G lines -> prober-package harness -> stitched trace."""
@@ -129,6 +131,12 @@ class ProberEngine(engines.HistEngine):
             if os.path.exists(p):
                 dist += open(p).read()
         self.last_distribution = dist
+        if tag == "t" and dist:
+            # engines.run_property copies props[pid]["rule"] into the evidence after the run:
+            # append what the generators actually produced in this run
+            P = self.props["C18"]
+            P["rule"] = P["rule"].split(" || measured")[0] + " || measured input distribution of this run: " + \
+                " ".join(dist.split())
         return 0, out1 + out2 + dist, trace
 
 
